@@ -210,6 +210,9 @@ def decode_bech32(s):
         number = (number << 5) + digit
     num_bytes = (len(data) - 7) * 5 // 8
     bits_to_ignore = (len(data) - 7) * 5 % 8
+    # BIP173: padding is at most 4 bits and all zero
+    if bits_to_ignore > 4 or number & ((1 << bits_to_ignore) - 1):
+        raise ValueError(f"bad padding: {s}")
     number >>= bits_to_ignore
     hash = int_to_big_endian(number, num_bytes)
     if num_bytes < 2 or num_bytes > 40:
